@@ -120,7 +120,9 @@ pub fn run(tier: &str) -> i32 {
     let nkeys = 4;
     let rules = rules_for(nkeys);
     let cs = cases(nkeys);
-    let modes = ["plain", "structured", "stdin", "payload-plain", "payload-structured"];
+    // `-2data`: the same data given as two files (every file must get the merged verdicts); `-dir`: the parameter files in
+    // a directory that also holds files of other kinds sorting before, between and after them
+    let modes = ["plain", "structured", "stdin", "payload-plain", "payload-structured", "plain-2data", "structured-2data", "plain-dir", "structured-dir"];
     // baseline: the pre-merged document (any key order gives the same verdicts: checked by using both orders)
     let all: Vec<usize> = (0..nkeys).collect();
     let n = cs.len() * modes.len();
@@ -159,8 +161,11 @@ pub fn run(tier: &str) -> i32 {
         let mut argv = sv(&["validate"]);
         let mut stdin = String::new();
         match mode {
-            "plain" | "structured" => {
+            "plain" | "structured" | "plain-dir" | "structured-dir" => {
                 argv.extend(vec!["-r".into(), rp.clone(), "-d".into(), put("c17/data.json", &data_txt)]);
+            }
+            "plain-2data" | "structured-2data" => {
+                argv.extend(vec!["-r".into(), rp.clone(), "-d".into(), put("c17/data.json", &data_txt), "-d".into(), put("c17/data2.json", &data_txt)]);
             }
             "stdin" => {
                 argv.extend(vec!["-r".into(), rp.clone()]);
@@ -172,10 +177,23 @@ pub fn run(tier: &str) -> i32 {
             }
         }
         let mut ptxts = vec![];
+        let dir_mode = mode.ends_with("-dir");
+        if dir_mode {
+            let d = crate::cli::reset_dir("c17/pd");
+            for junk in ["a_notes.txt", "p0.md", "p1.json.bak", "zz.txt"] {
+                put(&format!("c17/pd/{}", junk), "not a parameter file\n");
+            }
+            argv.push("-i".into());
+            argv.push(d);
+        }
         for (pi, pk) in param_keys.iter().enumerate() {
             let t = obj(pk, if dup_param == Some(pi) { ov } else { None });
-            argv.push("-i".into());
-            argv.push(put(&format!("c17/p{}.json", pi), &t));
+            if dir_mode {
+                put(&format!("c17/pd/p{}.json", pi), &t);
+            } else {
+                argv.push("-i".into());
+                argv.push(put(&format!("c17/p{}.json", pi), &t));
+            }
             ptxts.push(t);
         }
         argv.extend(base_args);
@@ -200,8 +218,34 @@ pub fn run(tier: &str) -> i32 {
             }
             return;
         }
-        let st = if structured { statuses_structured(&o.out).unwrap_or_default() } else { statuses_plain(&o.out) };
         *acc.outcomes.entry(format!("merge-exit-{}", o.status())).or_insert(0) += 1;
+        if mode.ends_with("-2data") {
+            // one report per data file, each equal to the merged document's
+            let per_file: Vec<Vec<(String, St)>> = if structured {
+                parse_structured_json(&o.out).unwrap_or_default().iter().map(|fr| {
+                    let mut l: Vec<(String, St)> = vec![];
+                    l.extend(fr.compliant.iter().map(|n| (bare(n), St::Pass)));
+                    l.extend(fr.not_applicable.iter().map(|n| (bare(n), St::Skip)));
+                    l.extend(fr.not_compliant.iter().map(|(n, _)| (bare(n), St::Fail)));
+                    l.sort();
+                    l
+                }).collect()
+            } else {
+                parse_plain(&o.out, "sls").tables.iter().map(|t| {
+                    let mut v: Vec<(String, St)> = vec![];
+                    v.extend(t.pass.iter().map(|n| (n.clone(), St::Pass)));
+                    v.extend(t.fail.iter().map(|n| (n.clone(), St::Fail)));
+                    v.extend(t.skip.iter().map(|n| (n.clone(), St::Skip)));
+                    v.sort();
+                    v
+                }).collect()
+            };
+            if per_file.len() != 2 || per_file.iter().any(|l| *l != bst) || o.status() != bo.status() {
+                acc.violate(&format!("merge-differs:two-data-files:{}", if structured { "structured" } else { "plain" }), format!("{}: per-file verdicts {:?} exit {} but the merged document gives {:?} exit {}", label, per_file, o.status(), bst, bo.status()), replay(format!("{:?} exit {}", per_file, o.status())));
+            }
+            return;
+        }
+        let st = if structured { statuses_structured(&o.out).unwrap_or_default() } else { statuses_plain(&o.out) };
         if st != bst || o.status() != bo.status() {
             acc.violate(&format!("merge-differs:{}:{}", class, if structured { "structured" } else { "plain" }), format!("{}: verdicts {:?} exit {} but the merged document gives {:?} exit {}", label, st, o.status(), bst, bo.status()), replay(format!("{:?} exit {}", st, o.status())));
         }
